@@ -85,7 +85,7 @@ def merge_counts(dst, src):
         dst[k] = dst.get(k, 0) + v
 
 
-def write_evidence(prop, level, tier, seed, results, wall, nviol, engine, extra=None, capped=False, planned=0):
+def write_evidence(prop, level, tier, seed, results, wall, nviol, engine, extra=None, capped=False, planned=0, detcheck=None):
     faults, probes = {}, {}
     steps = 0
     sigs = set()
@@ -117,6 +117,7 @@ def write_evidence(prop, level, tier, seed, results, wall, nviol, engine, extra=
         "probes": dict(sorted(probes.items())),
         "components": getattr(engine, "components", REAL_STUB),
         "ended_by": "wall-clock cap" if capped else "run count",
+        "determinism_spot_check": detcheck or "not run",
         "planned_runs": planned,
     }
     if not cov["rule"]:
@@ -212,6 +213,19 @@ def run_check(prop, tier="quick", seed=0, nruns=None, workers=None, wall_cap=Non
     extra_results = []
     if pre:
         extra_results = pre(prop, tier) or []
+    # determinism spot check: the first runs again, in other processes; digests must agree
+    nondet = []
+    nrep = 0
+    if not os.environ.get("VERIF_NO_DETCHECK"):
+        nrep = min(getattr(engine, "detcheck_runs", {}).get(tier, 6 if tier == "quick" else 12), len(results))
+        again, _ = driver.sweep(engine, prop, tier, seed, nrep, min(3, max(1, nrep)), stop_on_violation=False)
+        first = {r["index"]: r for r in results}
+        for r in again:
+            a = first.get(r["index"])
+            if a is None or a.get("harness_error") or r.get("harness_error"):
+                continue
+            if a.get("log_digest") != r.get("log_digest") or len(a.get("violations", [])) != len(r.get("violations", [])):
+                nondet.append(r["index"])
     wall = time.monotonic() - t0
     herr = [r for r in results if r.get("harness_error")]
     rc = 0
@@ -220,6 +234,9 @@ def run_check(prop, tier="quick", seed=0, nruns=None, workers=None, wall_cap=Non
     if herr:
         h = herr[0]
         print(f"HARNESS-ERROR: run index {h['index']}:\n{h['harness_error']}")
+        rc = 2
+    if nondet:
+        print(f"HARNESS-ERROR: nondeterminism: run indices {nondet} gave different event-log digests when executed twice")
         rc = 2
     seen_known = {}
     unknown = []
@@ -293,7 +310,7 @@ def run_check(prop, tier="quick", seed=0, nruns=None, workers=None, wall_cap=Non
         rc = max(rc, 1) if rc != 2 else 2
     wall = time.monotonic() - t0
     try:
-        p = write_evidence(prop, level, tier, seed, results, wall, nviol, engine, capped=capped, planned=nruns)
+        p = write_evidence(prop, level, tier, seed, results, wall, nviol, engine, capped=capped, planned=nruns, detcheck=f"{nrep} runs executed twice in different processes: {len(nondet)} digest mismatches")
     except Exception as e:
         print(f"HARNESS-ERROR: cannot write evidence: {e}")
         return 2
